@@ -7,6 +7,7 @@ import (
 	"sort"
 	"strings"
 
+	"github.com/mit-pdos/go-journal/lockmap"
 	"github.com/mit-pdos/go-journal/vrt"
 	"github.com/mit-pdos/go-nfsd/fstxn"
 	"verif/fsx"
@@ -25,6 +26,7 @@ type concArg struct {
 	ICacheSz uint64     `json:"icachesz,omitempty"`
 	Probe    *fsx.Probe `json:"probe,omitempty"`
 	NoLin    bool       `json:"nolin,omitempty"` // C14 race build: skip the oracles that are not needed
+	NShard   uint64     `json:"nshard,omitempty"` // lockmap.NSHARD for this run (0: the scaled default 13)
 }
 
 type concIn struct {
@@ -71,7 +73,11 @@ func concHarness(raw json.RawMessage, cfg vrt.Config) (vrt.Result, Outcome) {
 	if a.ICacheSz != 0 {
 		fstxn.ICACHESZ = a.ICacheSz
 	}
-	defer func() { fstxn.ICACHESZ = saved }()
+	savedShard := lockmap.NSHARD
+	if a.NShard != 0 {
+		lockmap.NSHARD = a.NShard
+	}
+	defer func() { fstxn.ICACHESZ = saved; lockmap.NSHARD = savedShard }()
 	res := vrt.Run(cfg, func() {
 		w := NewWorld(base)
 		w.Disk.Record = false
